@@ -783,7 +783,9 @@ def block_container_layout(context, box, bottom_space, skip_stack,
         return None, None, {'break': 'any', 'page': None}, [], False, max_lines
 
     for key, value in broken_out_of_flow.items():
-        context.broken_out_of_flow[key] = value
+        if any(key is child for child in new_children):
+            # Don't continue boxes dropped by find_earlier_page_break
+            context.broken_out_of_flow[key] = value
 
     if collapsing_with_children:
         box.position_y += (
